@@ -52,6 +52,7 @@ def cases(tier):
     yield dict(kind="start", tier=tier)
     for i in range(4):
         yield dict(kind="lig", part=i, tier=tier)
+    yield dict(kind="lig-two", tier=tier)
     yield dict(kind="split", tier=tier)
     yield dict(kind="split-run", tier=tier)
 
@@ -375,6 +376,45 @@ def check_lig(case):
     return viols, evals, keys
 
 
+def check_lig_two(case):
+    """two -lig options at once: each ligand molecule ends one step from the host residue its own option names"""
+    viols, evals, keys = [], 0, []
+    sysd = dict(SYS, kwargs=dict(nrewind=2, maxiter=5))
+    resinfo = {"CH4": [("S", 1), ("B", 2), ("S", 3), ("B", 4)]}
+    # (host molecule, host residue index, host spec, ligand molecule, ligand spec)
+    opts = [(3, 1, "CH4#3-B#2", 1, "W#1"), (3, 2, "CH4#3-S#3", 2, "W#2"), (0, 0, "CH4#0-S#1", 1, "W#1"), (4, 3, "#4-B#4", 2, "W#2"),
+            (3, 1, "CH4#3-B#2", 2, "#2"), (0, 3, "CH4#0-B#4", 2, "W#2")]
+    for (a, b) in itertools.permutations(range(len(opts)), 2):
+        (hm1, hr1, hs1, lm1, ls1), (hm2, hr2, hs2, lm2, ls2) = opts[a], opts[b]
+        if lm1 == lm2:
+            continue          # one ligand molecule cannot sit at two hosts
+        s2 = json.loads(json.dumps(sysd))
+        s2["kwargs"]["ligands"] = [[hs1, ls1], [hs2, ls2]]
+        evals += 1
+        case1 = dict(kind="lig2", ligands=s2["kwargs"]["ligands"])
+        res = G.run_gen_coords(s2, Chooser([]))
+        if res["exc"] is not None:
+            viols.append(crash_violation(res["exc"], case1, assertion="ligand-spec-accepted", tags=["two-ligand-options"]))
+            continue
+        want_atoms = G.expand_atoms(s2)
+        atoms = res["gro"][0] if res["gro"] else []
+        if [(x[0], x[1], x[2]) for x in atoms] != [(w[2], w[3], w[4]) for w in want_atoms]:
+            viols.append(dict(assertion="molecule-list-unchanged", tags=["two-ligand-options"], message=f"-lig {s2['kwargs']['ligands']}: output atoms differ", case=case1, detail={}))
+            continue
+        pos = {}
+        for (mi, name, resid, resname, an), x in zip(want_atoms, atoms):
+            pos[(mi, resid - 1)] = np.array(x[3])
+        box = np.array(s2["box"])
+        for hm, hr, lm in ((hm1, hr1, lm1), (hm2, hr2, lm2)):
+            step = (G.DEFAULT_VOLUMES[resinfo["CH4"][hr][0]] + G.DEFAULT_VOLUMES["W"]) / 2.0
+            dist = np.linalg.norm(O.min_image(pos[(hm, hr)] - pos[(lm, 0)], box))
+            if abs(dist - step) > 2e-3 and len(viols) < 20:
+                viols.append(dict(assertion="ligand-one-step-from-host", tags=["two-ligand-options"],
+                                  message=f"-lig {s2['kwargs']['ligands']}: ligand molecule {lm} is {dist:.4f} nm from host residue {(hm, hr)}, step {step}", case=case1, detail={}))
+        keys.append(f"lig2:{a}:{b}")
+    return viols, evals, keys
+
+
 # ------------------------------------------------------------------ -split
 def partitions(items):
     if not items:
@@ -452,12 +492,16 @@ def check_split(case):
 
 def check_split_run(case):
     viols, evals, keys = [], 0, []
-    for resname, new, sstr in split_strings():
+    singles = list(split_strings())
+    combos = [[x] for x in singles] + [[x, y] for x in singles for y in singles if x[0] != y[0]]     # also two -split options at once, both orders
+    for combo in combos:
+        sstr = [c[2] for c in combo]
+        new = [nn for c in combo for nn in c[1]]
         s2 = json.loads(json.dumps(SPLIT_SYS))
-        s2["kwargs"] = dict(split=[sstr], nrewind=2, maxiter=5)
+        s2["kwargs"] = dict(split=sstr, nrewind=2, maxiter=5)
         s2["volumes"] = {nn: 0.5 for nn, _ in new}
         evals += 1
-        case1 = dict(kind="splitrun1", split=[sstr])
+        case1 = dict(kind="splitrun1", split=sstr)
         s2["bld_extra"] = ["[ volumes ]"] + [f"{nn} 0.5" for nn, _ in new]
         res = G.run_gen_coords(s2, Chooser([]))
         if res["exc"] is not None:
@@ -468,11 +512,11 @@ def check_split_run(case):
         want = [w[4] for w in G.expand_atoms(s2)]
         if [a[2] for a in atoms] != want:
             viols.append(dict(assertion="split-keeps-atoms", tags=[], message=f"{sstr}: output atom names {[a[2] for a in atoms]}", case=case1, detail={}))
-        keys.append("splitrun:" + sstr)
+        keys.append("splitrun:" + "+".join(sstr))
     return viols, evals, keys
 
 
-FUNCS = {"tags-dup": check_tags_dup, "pairdir": check_pair_directives, "tags": check_tags, "tags-multi": check_tags_multi, "start": check_start, "lig": check_lig, "split": check_split,
+FUNCS = {"lig-two": check_lig_two, "tags-dup": check_tags_dup, "pairdir": check_pair_directives, "tags": check_tags, "tags-multi": check_tags_multi, "start": check_start, "lig": check_lig, "split": check_split,
          "split-run": check_split_run}
 
 
@@ -480,7 +524,7 @@ def run_case(case):
     kind = case["kind"]
     if kind not in FUNCS:
         # replay of single sub-cases is done by re-running the owning family (cheap) and filtering
-        fam = {"tags1": "tags", "tagsm1": "tags-multi", "pairdir1": "pairdir", "tagsdup1": "tags-dup", "start1": "start", "lig1": "lig", "split1": "split", "splitrun1": "split-run"}[kind]
+        fam = {"tags1": "tags", "tagsm1": "tags-multi", "pairdir1": "pairdir", "tagsdup1": "tags-dup", "lig2": "lig-two", "start1": "start", "lig1": "lig", "split1": "split", "splitrun1": "split-run"}[kind]
         out = []
         for part in range(4 if fam == "lig" else 1):
             c = dict(kind=fam, tier="quick", part=part, directive="sphere" if case.get("key") != "rw_options" else "rw")
